@@ -288,6 +288,11 @@ def build_class(prog, rec, W, decorated=True):
             return W.call_copies[-1]
         except BaseException as e:
             W.sites[s['sid']] = ('e', e)
+            if s.get('swallow_interrupt') and isinstance(e, V.Interrupt):
+                # the service bounds the call with a timeout whose exception is interrupt-style (not an Exception,
+                # as gevent.Timeout) and carries on without the value
+                W.call_copies.append(('e', s['sid'], type(e).__name__))
+                return W.call_copies[-1]
             raise
         finally:
             W.tl.cur = None
@@ -555,9 +560,12 @@ def normalise_inputs(prog):
         except Exception:  # unencodable argument: key cannot be built, nothing recorded
             continue
         if k in table:
-            s['ret'], s['beh'], s['exc'] = table[k]
+            s['ret'], s['beh'], s['exc'], sw = table[k]
+            s.pop('swallow_interrupt', None)
+            if sw:
+                s['swallow_interrupt'] = True
         else:
-            table[k] = (s['ret'], s['beh'], s.get('exc', 'Err'))
+            table[k] = (s['ret'], s['beh'], s.get('exc', 'Err'), s.get('swallow_interrupt', False))
     return prog
 
 
@@ -670,7 +678,7 @@ def step_lists(draw, ins, outs, values, max_steps, in_behs, out_behs, threads=Tr
 @st.composite
 def programs(draw, values=None, max_steps=10, in_behs=('ret', 'ret', 'ret', 'raise', 'nested'),
              out_behs=('ret', 'ret', 'ret', 'raise'), endings=('return', 'return', 'raise'), threads=True,
-             in_extra=None, out_extra=None, params=None, extractors=('none',)):
+             in_extra=None, out_extra=None, params=None, extractors=('none',), swallowed_interrupts=False):
     values = values if values is not None else V.small_values
     ins, outs = fix_decls(draw(st.lists(input_decls(in_extra), max_size=3)), draw(st.lists(output_decls(out_extra), max_size=3)))
     steps = draw(step_lists(ins, outs, values, max_steps, in_behs, out_behs, threads=threads)) if (ins or outs) else []
@@ -679,6 +687,12 @@ def programs(draw, values=None, max_steps=10, in_behs=('ret', 'ret', 'ret', 'rai
                 extractor=draw(st.sampled_from(extractors)))
     if params is not None:
         prog['params'] = draw(params)
+    calls = [s for s in steps if s['t'] in ('in', 'out')]
+    if swallowed_interrupts and calls and draw(st.sampled_from([False, False, True])):
+        # an intercepted call is cut short by an interrupt-style exception that the operation swallows
+        for k in draw(st.sets(st.integers(0, len(calls) - 1), min_size=1, max_size=2)):
+            calls[k]['beh'] = 'interrupt'
+            calls[k]['swallow_interrupt'] = True
     return assign_sids(prog)
 
 
@@ -703,7 +717,11 @@ def shape_classes(prog):
             out.add('nested')
         if s['beh'] == 'raise':
             out.add('in-raises')
+        if s.get('swallow_interrupt'):
+            out.add('swallowed-interrupt')
     for s in outs:
+        if s.get('swallow_interrupt'):
+            out.add('swallowed-interrupt')
         d = prog['outs'][s['i']]
         out.add('out:' + d['kind'])
         if d.get('handler') == 'wrap':
